@@ -6,7 +6,7 @@ claim("C01", "lockset + value-provenance (SSA access paths) + channel typestate"
       "enqueued ID and the newID() result are one SSA value; the response copied to a client is the one received on that "
       "activation's own unbuffered channel (single receive site, not in a loop); the agent-facing endpoints use the request ID "
       "of their own call; (backend ID, request ID) travel in the right parameter roles from the pending list to the upload "
-      "headers. Not decided: interleavings inside net/http, ID collision probability, payload bytes.")
+      "headers. no per-request closure, goroutine-in-loop or pool shares scratch memory or loop variables between activations; the App Engine proxy's GET response cache uses one injective key of (user, URL). Not decided: interleavings inside net/http, ID collision probability, payload bytes.")
 
 claim("C02", "who-may-write table over resolved mutation sites + sibling tables + construction-site checks",
       "Byte identity through net/http is not decided. Decides that nothing in this repository's code on the request path alters "
@@ -14,7 +14,7 @@ claim("C02", "who-may-write table over resolved mutation sites + sibling tables 
       "*http.Request in the proxy's client path and the agent's handler chain is enumerated), that both hop-by-hop tables equal "
       "the RFC 7230 set, that the backend-facing proxy is httputil.NewSingleHostReverseProxy of a Scheme+Host URL without "
       "Director/Rewrite override, that the request object stored, serialised (Request.Write), parsed (private bufio.Reader) and "
-      "served is one chain of custody, and that no ServeMux/StripPrefix/TimeoutHandler sits on the pass-through route.")
+      "served is one chain of custody, that the fetched reply body stays open until the request was forwarded, that no pooled buffers carry request bytes, and that no ServeMux/StripPrefix/TimeoutHandler sits on the pass-through route.")
 
 claim("C03", "ownership-transfer rule + taint (tokeniser as sanitiser) + partial evaluation of status comparisons + dominance",
       "Byte identity through Response.Write/ReadResponse is not decided. Decides the repository-specific shapes the statement's "
@@ -22,7 +22,7 @@ claim("C03", "ownership-transfer rule + taint (tokeniser as sanitiser) + partial
       "with the writer's fields, directly or through its accessor); declared-trailer names pass a comma tokeniser before being "
       "used as keys; 1xx statuses never latch a ResponseWriter or get published, all final statuses (incl. 101) do — evaluated "
       "for representative statuses of each class; every header/trailer copy is guarded by the hop-by-hop predicate on the same "
-      "key and by no other filter; chunked framing is forced before serialisation; wrappers forward their own status and slice.")
+      "key and by no other filter; chunked framing is forced before serialisation; a final status after an interim one is still forwarded (two-call simulation of every ResponseWriter), retries restart through the refusing rewind; wrappers forward their own status and slice.")
 
 claim("C04", "dominance / must-pass-through + confinement (escape) analysis + call-site uniqueness + channel typestate",
       "Decides for every order and grouping of pending-list replies: the worker start is control-dependent on the miss of the "
@@ -44,7 +44,7 @@ claim("C06", "counted-loop evaluation + must-pass-through + truth tables by part
       "Decides for every fault sequence: at most three attempts (counted loop evaluated); every path from one client.Do to the "
       "next passes a rewind whose failure leaves the function; Seek refuses exactly when the retained prefix may be incomplete "
       "(writeHead vs len(buf), offset, whence evaluated on boundary values); the replay state is only touched under its mutex, "
-      "each attempt reads through the handle returned by its own rewind and a stale generation never reaches the source; both "
+      "each attempt reads through the handle returned by its own rewind and a stale generation never reaches the source; the replay buffer retains exactly p[k:k+n] at writeHead (offset agreement on sample values); both "
       "forwarder goroutines close their pipe end and error channel on every exit, CloseWithError propagates failures, Close() "
       "drains both channels. Not decided: attempt bytes for a given fault offset inside http.Transport.")
 
@@ -76,7 +76,7 @@ claim("C10", "lockset + must-pass-through under status valuation + literal-field
       "final status each path to wrapped.WriteHeader first deletes Set-Cookie from the forwarded header, the only Set-Cookie added "
       "is the session cookie literal on the no-session branch, Write cannot reach the wrapped writer before WriteHeader; 1xx does "
       "not latch; cookie literal attributes (HttpOnly, Path=/, Secure=!override, Expires=now+lifetime, name, fresh UUID); the "
-      "session cookie is dropped and other client cookies kept (equality truth table), jars and cookie URL are the caller's own. "
+      "session cookie is dropped and other client cookies kept (equality truth table), jars and cookie URL are the caller's own; the shim's open endpoint restores r.URL before the session handler runs. "
       "Not decided: cookiejar matching, LRU eviction, expiry arithmetic.")
 
 claim("C11", "sibling agreement by partial evaluation + channel inventory + provenance of message fields",
@@ -85,13 +85,13 @@ claim("C11", "sibling agreement by partial evaluation + channel inventory + prov
       "one producer/consumer goroutine each; the data endpoint walks the decoded slice by index synchronously and aborts on the "
       "first error; writer and reader move (Type, Data) of exactly one message / one ReadMessage result; polls return every "
       "received message in receive order; injection parses the whole message, only adds missing keys, keeps the type and falls "
-      "back to the original on error.")
+      "back to the original on error; session IDs are unique; a poll never discards messages it already took from the queue.")
 
 claim("C12", "channel typestate + every-path-answers (must-pass-through) + status oracle + lifecycle pairing",
       "Decides for every call order and interleaving: no channel with concurrent senders is closed and closes happen once; every "
       "send reachable from an endpoint selects on the connection's done channel, receives have timer/default alternatives; every "
       "CFG path of the five endpoint handlers produces an HTTP answer with constant status in {200,400,408,500}; an unknown "
-      "session leads only to 400, failed send/poll to 400, only close and a failed poll forget a session; reader/writer cancel the "
+      "session leads only to 400, failed send/poll to 400, only close and a failed poll forget a session; concurrent opens get distinct IDs; a poll delivers what it received before reporting closed; reader/writer cancel the "
       "connection context on every exit, a goroutine closes the backend socket after Done, Close() makes the writer exit. Not "
       "decided: that gorilla's WriteMessage returns in bounded time on a dead peer.")
 
@@ -100,7 +100,7 @@ claim("C13", "must-assign (definite overwrite) per URL field + who-may-dial tabl
       "Opaque and User are each overwritten, on every path before String(), by a constant or the configured host; the shim "
       "package has one dial site whose URL is NewConnection's parameter, one NewConnection call site, no other network client, "
       "and the handshake response is never used (no redirect following); endpoints are mounted under path.Join(shimPath, const) "
-      "and non-shim requests reach the wrapped handler with the original writer and request. Not decided: DNS/proxy environment.")
+      "under a slash-terminated prefix, and non-shim requests reach the wrapped handler with the original writer and request. Not decided: DNS/proxy environment.")
 
 claim("C14", "partial evaluation on predicate results + predicate truth tables + index/slice agreement",
       "The splice arithmetic on run-time strings is not decided. Decides that every alteration is gated: the banner writer is "
@@ -108,20 +108,20 @@ claim("C14", "partial evaluation on predicate results + predicate truth tables +
       "the status and lets the body pass; framed requests get the original body; frameable ones get the frame and the uncacheable / "
       "sameorigin headers; Write forwards iff writeBytes; 1xx does not latch; predicate truth tables (only GET, only 200, not "
       "attachment, content-type constants); the shim touches nothing (not even the body) unless Content-Type contains html, the new "
-      "body is prefix+original, and the script is inserted by Replace(…, 1) or by index and slice on the same string.")
+      "body is prefix+original, and the script is inserted by Replace(…, 1) or by index and slice on the same string; rendered pages live in call-owned (not pooled or captured) buffers and the backend-facing proxy gets no Director/Transport override for injection.")
 
 claim("C15", "sibling agreement (encoder/decoder) by partial evaluation + buffer-discipline provenance + pairing",
       "Byte-stream integrity for all sizes is not decided. Decides the codec/structure it rests on: Write sends one TextMessage "
       "carrying hex of its own argument and reports len(argument); Read accepts exactly that type, decodes the payload it just read, "
       "refills only when its buffer is empty and keeps the remainder from the returned count; no websocket read limit exists while "
       "Write is unsegmented; each bridging function copies a→b and b→a over the same pair with matching WaitGroup counts; non-bridge "
-      "requests reach the pass-through handler with the original (w, r) and are never upgraded; both ends use one StreamingPath constant.")
+      "requests reach the pass-through handler with the original (w, r) and are never upgraded; both ends use one StreamingPath constant; goroutines started per accepted connection capture only per-iteration variables; the pass-through proxy is the stock single-host proxy.")
 
 claim("C16", "pairing: copy-loop completion must reach a close of the pair; acquisition/release pairing",
       "Timing is not decided. Decides the structural obstacle the property names: in each bridging function, when either "
       "direction's io.Copy returns that goroutine closes the connections of the pair (directly or via a closure that does), "
       "independently of its sibling — an expired deadline or a conditional close is not accepted — and every acquired connection "
-      "(Upgrade, Dial, Accept, DialWebsocket) has a deferred Close.")
+      "(Upgrade, Dial, Accept, DialWebsocket) has a deferred Close; no SO_LINGER≥0 is armed; a wrapper's Close never takes a lock that is held across blocking I/O.")
 
 claim("C17", "dominance + provenance (validated value) + sibling agreement of Store implementations + partial evaluation",
       "Identity values come from App Engine. Decides for all callers and orders: in each agent endpoint checkBackendID dominates "
@@ -136,7 +136,7 @@ claim("C18", "dominance (liveness gate) + truth tables by partial evaluation + p
       "passed hasBackend(<same ID>, 5 min); hasBackend is 'seen and Since < timeout' on boundary values; the shared lookup runs only "
       "when the user has no match; failure is 404 before any store write; the selection function is pure and deterministic, updates "
       "its best candidate only under HasPrefix(path, p) and only when there is none yet or len(p) > len(best), records ID and prefix "
-      "of the same backend, and errors exactly when there is no match; no cache or memo sits in front of the routing decision.")
+      "of the same backend, and errors exactly when there is no match; neither loop is left early (every prefix of every backend is compared); no cache or memo sits in front of the routing decision.")
 
 claim("C19", "provenance of IDs and bytes + sibling key agreement + path-sensitive send counting vs. channel capacity + pairing",
       "Blob arithmetic at the 1 MB boundaries is not decided. Decides: the client path stores and awaits under the same (backend, "
@@ -144,7 +144,7 @@ claim("C19", "provenance of IDs and bytes + sibling key agreement + path-sensiti
       "response is stored only when the request exists under that pair; datastore keys agree between write and read, blob parts are "
       "read with one ordered GetMulti in the recorded order without goroutines; Completed=true is set on the read request before it "
       "is written back and the pending query filters it; every error channel's capacity covers its possible senders, WaitGroup "
-      "counts match, both wait loops are bounded by WithTimeout(constant) and a time-out maps to 504.")
+      "counts match, both wait loops are bounded by WithTimeout(constant) and a time-out maps to 504; cache keys are injective in (backend ID, request ID); the GET response cache key is injective in (user, URL).")
 
 claim("C20", "dominance + who-may-call + partial evaluation of health/threshold comparisons + confinement of the polling context",
       "Exit times are not decided. Decides the ordering and counting structure: waitForHealthy dominates the adapter start and "
@@ -152,4 +152,4 @@ claim("C20", "dominance + who-may-call + partial evaluation of health/threshold 
       "the failure counter is +1 on failure, 0 on success, starts at 0, and the terminating call is reachable exactly for counter ≥ "
       "threshold (clamped to ≥ 1); exactly SIGINT/SIGTERM are registered; after the signal main cancels the polling context, sleeps "
       "the grace period, terminates — or returns at once without one; every list call is preceded by the non-blocking cancellation "
-      "test; the polling context never leaves pollForNewRequests and the shared HTTP client is not modified by the poller.")
+      "test and performs exactly one proxy round trip; the polling context never leaves pollForNewRequests and the shared HTTP client is not modified by the poller.")
